@@ -273,22 +273,22 @@ func (dec *Decoder) Token() (Token, error) {
 func (dec *Decoder) More() bool {
 	dec.hadPeeked = true
 	k := dec.dec.PeekKind()
-	if k == 0 {
-		if dec.err == nil {
-			// PeekKind doesn't distinguish between EOF and error,
-			// so read the next token to see which we get.
-			_, err := dec.dec.ReadToken()
-			if err == nil {
-				// This is only possible if jsontext violates its documentation.
-				err = errors.New("json: successful read after failed peek")
-			}
-			dec.err = transformSyntacticError(err)
+	if k == 0 && dec.err == nil {
+		// PeekKind doesn't distinguish between EOF and error,
+		// so read the next token to see which we get.
+		_, err := dec.dec.ReadToken()
+		if err == nil {
+			// This is only possible if jsontext violates its documentation.
+			err = errors.New("json: successful read after failed peek")
 		}
-		// Like the original decoder, report false when the input ends,
-		// whether cleanly or in the middle of an array or object.
-		return dec.err != io.EOF && dec.err.Error() != errUnexpectedEnd.Error()
+		dec.err = transformSyntacticError(err)
 	}
-	return k != ']' && k != '}'
+	// Like the original decoder, look at the next byte that is not
+	// whitespace: there is more unless it is ']' or '}' or the input ends
+	// (cleanly, in the middle of an array or object, or by a read error).
+	// In particular a ',' or ':' counts, whatever follows it.
+	b := bytes.TrimLeft(dec.dec.UnreadBuffer(), " \r\n\t")
+	return len(b) > 0 && b[0] != ']' && b[0] != '}'
 }
 
 // InputOffset returns the input stream byte offset of the current decoder position.
